@@ -164,6 +164,10 @@ func (s *Sched) readGlobal(t *Task, k cellKey, site int) {
 // the happens-before knowledge t has at the end of the call). Published reads carry the clock
 // t had when the call began - the earliest moment they can have happened.
 func (s *Sched) CommitReads(t *Task, startClock uint32) {
+	if t.noVC {
+		t.pending = nil
+		return
+	}
 	if startClock == 0 {
 		startClock = 1
 	}
@@ -211,6 +215,9 @@ func AccessC(site, v, kind int, p any) {
 	}
 	t := s.cur
 	s.yield(site, 1)
+	if t.noVC {
+		return
+	}
 	k := cellKey{v: v, sub: ptrOf(p)}
 	if kind&2 != 0 {
 		t.touch(globalSyncToken{})
@@ -242,6 +249,9 @@ func AccessL(site, v, kind int, p any) {
 	}
 	t := s.cur
 	s.yield(site, 1)
+	if t.noVC {
+		return
+	}
 	k := cellKey{v, ptrOf(p), (t.Root+1)<<24 | (t.CallIdx & 0xffffff)}
 	if kind&2 != 0 {
 		t.acquire(s.globalSync)
